@@ -81,72 +81,78 @@ def _summary(c):
         return '<container>'
 
 
+def _oid(c):
+    """Location name of a recorded container: containers handed out by a wrapped functools.lru_cache carry a stable
+    name (function + arguments), because the object itself is re-created whenever the cache is purged."""
+    return c.__dict__.get('_soid') or id(c)
+
+
 class RecDict(dict):
     # every access to a recorded container is an access to the one location (container, '*')
     def __getitem__(self, k):
-        _event('r', id(self), '*', _summary(self))
+        _event('r', _oid(self), '*', _summary(self))
         return dict.__getitem__(self, k)
 
     def get(self, k, d=None):
-        _event('r', id(self), '*', _summary(self))
+        _event('r', _oid(self), '*', _summary(self))
         return dict.get(self, k, d)
 
     def __contains__(self, k):
-        _event('r', id(self), '*', _summary(self))
+        _event('r', _oid(self), '*', _summary(self))
         return dict.__contains__(self, k)
 
     def __iter__(self):
-        _event('r', id(self), '*', _summary(self))
+        _event('r', _oid(self), '*', _summary(self))
         return dict.__iter__(self)
 
     def items(self):
-        _event('r', id(self), '*', _summary(self))
+        _event('r', _oid(self), '*', _summary(self))
         return dict.items(self)
 
     def __setitem__(self, k, v):
-        _event('w', id(self), '*', ('set', repr(k), _val(v)))
+        _event('w', _oid(self), '*', ('set', repr(k), _val(v)))
         dict.__setitem__(self, k, v)
 
     def __delitem__(self, k):
-        _event('w', id(self), '*', ('del', repr(k)))
+        _event('w', _oid(self), '*', ('del', repr(k)))
         dict.__delitem__(self, k)
 
     def pop(self, *a):
-        _event('w', id(self), '*', ('pop', repr(a[0])))
+        _event('w', _oid(self), '*', ('pop', repr(a[0])))
         return dict.pop(self, *a)
 
     def setdefault(self, k, d=None):
         if k not in self:
-            _event('w', id(self), '*', ('setdefault', repr(k)))
+            _event('w', _oid(self), '*', ('setdefault', repr(k)))
         return dict.setdefault(self, k, d)
 
     def update(self, *a, **kw):
-        _event('w', id(self), '*', '<update>')
+        _event('w', _oid(self), '*', '<update>')
         dict.update(self, *a, **kw)
 
     def clear(self):
-        _event('w', id(self), '*', '<clear>')
+        _event('w', _oid(self), '*', '<clear>')
         dict.clear(self)
 
 
 class RecList(list):
     def _w(self, what):
-        _event('w', id(self), '*', what)
+        _event('w', _oid(self), '*', what)
 
     def __iter__(self):
-        _event('r', id(self), '*', _summary(self))
+        _event('r', _oid(self), '*', _summary(self))
         return list.__iter__(self)
 
     def __getitem__(self, i):
-        _event('r', id(self), '*', _summary(self))
+        _event('r', _oid(self), '*', _summary(self))
         return list.__getitem__(self, i)
 
     def __len__(self):
-        _event('r', id(self), '*', _summary(self))
+        _event('r', _oid(self), '*', _summary(self))
         return list.__len__(self)
 
     def __contains__(self, x):
-        _event('r', id(self), '*', _summary(self))
+        _event('r', _oid(self), '*', _summary(self))
         return list.__contains__(self, x)
 
     def append(self, x):
@@ -180,31 +186,31 @@ class RecList(list):
 
 class RecSet(set):
     def __contains__(self, x):
-        _event('r', id(self), '*', _summary(self))
+        _event('r', _oid(self), '*', _summary(self))
         return set.__contains__(self, x)
 
     def __iter__(self):
-        _event('r', id(self), '*', _summary(self))
+        _event('r', _oid(self), '*', _summary(self))
         return set.__iter__(self)
 
     def add(self, x):
-        _event('w', id(self), '*', ('add', repr(x)))
+        _event('w', _oid(self), '*', ('add', repr(x)))
         set.add(self, x)
 
     def discard(self, x):
-        _event('w', id(self), '*', ('discard', repr(x)))
+        _event('w', _oid(self), '*', ('discard', repr(x)))
         set.discard(self, x)
 
     def remove(self, x):
-        _event('w', id(self), '*', ('remove', repr(x)))
+        _event('w', _oid(self), '*', ('remove', repr(x)))
         set.remove(self, x)
 
     def update(self, *a):
-        _event('w', id(self), '*', '<update>')
+        _event('w', _oid(self), '*', '<update>')
         set.update(self, *a)
 
     def clear(self):
-        _event('w', id(self), '*', '<clear>')
+        _event('w', _oid(self), '*', '<clear>')
         set.clear(self)
 
 
@@ -313,6 +319,34 @@ def discover(modules):
                 defaults(v, f'{m.__name__}.{k}')
             else:
                 walk(v, f'{m.__name__}.{k}', m, k)
+    return found
+
+
+def wrap_caches(modules):
+    """Results of functools.lru_cache'd module functions are shared by every caller with equal arguments: hand mutable
+    container results out as recording containers named after the call.  Returns a description list."""
+    import functools
+    found = []
+    for m in modules:
+        for k, v in list(vars(m).items()):
+            if not (hasattr(v, 'cache_parameters') and hasattr(v, '__wrapped__')):
+                continue
+            if getattr(v.__wrapped__, '__module__', None) != m.__name__:
+                continue
+
+            def mk(inner, name):
+                @functools.wraps(inner)
+                def wrapped(*a, **kw):
+                    r = inner(*a, **kw)
+                    if type(r) in (dict, list, set):
+                        r = {dict: RecDict, list: RecList, set: RecSet}[type(r)](r)
+                        r.__dict__['_soid'] = f'lru:{name}{_val((a, kw))}'
+                    return r
+                return wrapped
+            params = v.cache_parameters()
+            new = functools.lru_cache(maxsize=params['maxsize'], typed=params['typed'])(mk(v.__wrapped__, f'{m.__name__}.{k}'))
+            setattr(m, k, new)
+            found.append((f'{m.__name__}.{k}', 'lru_cache', 'results shared between callers'))
     return found
 
 
